@@ -153,6 +153,27 @@ class TwoStep(EOS):
         return 12 * T**2 + 8 * self.ab**2 * T**2 + 4 * self.ab * (self.ab * T**2 - self.musq)
 
 
+class Quad(EOS):
+    """p_ph = a T^4 + b T^2 + c in each phase (massive-particle corrections): temperature-dependent sound speeds that are
+    physical wherever 2 a T^2 + b > 0. args = (a_s, b_s, c_s, a_b, b_b, c_b). TwoStep is the special case c_b = 0, ..."""
+
+    def __init__(self, a_s, b_s, c_s, a_b, b_b, c_b):
+        self.co = {"s": (a_s, b_s, c_s), "b": (a_b, b_b, c_b)}
+        self.name = f"quad(s={a_s:g},{b_s:g},{c_s:g};b={a_b:g},{b_b:g},{c_b:g})"
+
+    def p(self, ph, T):
+        a, b, c = self.co[ph]
+        return a * T**4 + b * T**2 + c
+
+    def dp(self, ph, T):
+        a, b, c = self.co[ph]
+        return 4 * a * T**3 + 2 * b * T
+
+    def ddp(self, ph, T):
+        a, b, c = self.co[ph]
+        return 12 * a * T**2 + 2 * b
+
+
 class Scaled(EOS):
     """The same physics in other units: T -> s T, p -> s^4 p."""
 
